@@ -204,4 +204,88 @@ def c11_cases(rng, tier):
                             script=["resume"], tag="c11 %s suspend@%d pause-resume" % (name, at)))
             out.append(base(plan, inject=[{"at": at, "req": "suspend"}, {"at": 150, "req": "defer"}, {"at": 200, "req": "release", "sid": 0}],
                             script=["resume"], tag="c11 %s suspend@%d defer" % (name, at)))
+    return [_ctl(c) for c in out]
+
+
+# ----------------------------------------------------------------------------- C03
+
+def p_points(xs, two_streams=False, keys=False):
+    """stage; open_run; for each point: checkpoint; set(1, x); wait; create; read 1; read 2; save; close_run; unstage"""
+    run = "k" if keys else None
+    body = [m("stage", 0), m("open_run", run=run)]
+    for j, x in enumerate(xs):
+        g = "g%d" % j
+        body += [m("checkpoint"), m("set", 1, [x], {"group": g}), m("wait", None, [], {"group": g}),
+                 m("create", None, [], {"name": "primary"}, run=run), m("read", 1, run=run), m("read", 2, run=run), m("save", run=run)]
+        if two_streams:
+            body += [m("create", None, [], {"name": "other"}, run=run), m("read", 2, run=run), m("save", run=run)]
+    body += [m("close_run", run=run), m("unstage", 0)]
+    return seq(*body)
+
+
+def p_two_runs_points():
+    a = [m("open_run")]
+    for j, x in enumerate((1, 2)):
+        a += [m("checkpoint"), m("set", 1, [x], {"group": "a%d" % j}), m("wait", None, [], {"group": "a%d" % j}),
+              m("create", None, [], {"name": "primary"}), m("read", 1), m("save")]
+    a += [m("close_run")]
+    b = [m("open_run", run="r1"), m("open_run", run="r2")]
+    for j, x in enumerate((3, 4)):
+        b += [m("checkpoint"), m("set", 2, [x], {"group": "b%d" % j}), m("wait", None, [], {"group": "b%d" % j}),
+              m("create", None, [], {"name": "primary"}, run="r1"), m("read", 2, run="r1"), m("save", run="r1"),
+              m("create", None, [], {"name": "primary"}, run="r2"), m("read", 1, run="r2"), m("read", 2, run="r2"), m("save", run="r2")]
+    b += [m("close_run", run="r2"), m("close_run", run="r1")]
+    return seq(*(a + b))
+
+
+C03_PLANS = [
+    ("points3", lambda: p_points((1, 2, 3))),
+    ("points2s", lambda: p_points((5, 7), two_streams=True)),
+    ("points2k", lambda: p_points((2, 4), keys=True)),
+    ("tworuns", p_two_runs_points),
+    ("count", lambda: ["builtin", "count", [1, 2], 3]),
+    ("scan", lambda: ["builtin", "scan", [2], 1, 0, 4, 3]),
+]
+C03_LEN = {"points3": 25, "points2s": 24, "points2k": 18, "tworuns": 37, "count": 33, "scan": 36}
+
+
+def c03_cases(rng, tier):
+    out = []
+    for name, t in C03_PLANS:
+        plan = t()
+        n = C03_LEN[name] + 3
+        out.append(base(plan, tag="c03 %s plain" % name))
+        for at in range(1, n + 1):
+            cs = [base(plan, inject=[{"at": at, "req": "pause"}], script=["resume"] * 3, tag="c03 %s pause@%d" % (name, at)),
+                  base(plan, inject=[{"at": at, "req": "suspend"}, {"at": 300, "req": "release", "sid": 0}], tag="c03 %s suspend@%d" % (name, at))]
+            if tier == "thorough" or at % 3 == 0:
+                cs.append(base(plan, inject=[{"at": at, "req": "defer"}], script=["resume"] * 3, tag="c03 %s defer@%d" % (name, at)))
+                cs.append(base(plan, inject=[{"at": at, "req": "pause"}, {"at": at + 3, "req": "pause"}], script=["resume"] * 4,
+                               tag="c03 %s pause2@%d" % (name, at)))
+                cs.append(base(plan, inject=[{"at": at, "req": "suspend", "pre": seq(m("null")), "post": seq(m("null"))},
+                                             {"at": at + 5, "req": "pause"}, {"at": 300, "req": "release", "sid": 0}],
+                               script=["resume"] * 3, tag="c03 %s suspend+pause@%d" % (name, at)))
+            if tier == "thorough" and at % 2 == 0:
+                cs.append(base(plan, inject=[{"at": at, "req": "pause"}, {"at": at + 1, "req": "suspend"}, {"at": 300, "req": "release", "sid": 0}],
+                               script=["resume"] * 3, tag="c03 %s pause+suspend@%d" % (name, at)))
+            out += cs
+    # random repeated interruptions
+    nrand = 60 if tier == "quick" else 1500
+    for _ in range(nrand):
+        name, t = C03_PLANS[rng.randrange(len(C03_PLANS))]
+        n = C03_LEN[name] + 3
+        inj, ns = [], 0
+        for _k in range(rng.randint(2, 4)):
+            at = rng.randint(1, n + 6)
+            if rng.random() < 0.5:
+                inj.append({"at": at, "req": rng.choice(["pause", "pause", "defer"])})
+            else:
+                inj.append({"at": at, "req": "suspend"})
+                inj.append({"at": at + rng.randint(2, 8), "req": "release", "sid": ns})
+                ns += 1
+        out.append(base(t(), inject=inj, script=["resume"] * 6, tag="c03 %s random" % name))
+    for c in out:
+        c["ctl"] = True
+        c["posdev"] = True
+        c["baseline"] = True
     return out
